@@ -12,6 +12,8 @@ attribute stored on the packet is, on every non-raising path,
 
 ``int.from_bytes``, ``int(x, 16)`` and plain storage are lenient decoders and
 need (ii)/(iii).
+ (iv) the total input length never steers parsing outside the end-of-string shortcut
+      (no clamping of counts / no 'nothing left, so absent' tolerance).
 """
 import ast
 
@@ -256,8 +258,43 @@ def check(ctx):
     ctx.floor('struct-template decode sites', tflows, 1)
     ctx.trust(*ASSUMPTIONS[:3])
 
+    # (iv) truncation is never tolerated: the total input length may not steer parsing
+    check_no_length_tolerance(ctx, [fi for _, fi, _ in strategies])
+
     from .c12 import check_wrappers
     check_wrappers(ctx, only_unpack=True)
+
+
+def check_no_length_tolerance(ctx, funcs):
+    """len(raw) (or a comparison of the cursor with it) in an unpack strategy, outside the
+    end-of-string shortcut, makes a cut input parse to a shortened value / list / None"""
+    rule = 'R4-no-length-tolerance'
+    seen = set()
+    n = 0
+    for fi in funcs:
+        if fi.id in seen:
+            continue
+        seen.add(fi.id)
+        par = {}
+        for p in ast.walk(fi.node):
+            for c in ast.iter_child_nodes(p):
+                par[id(c)] = p
+        for x in ast.walk(fi.node):
+            if isinstance(x, ast.Call) and isinstance(x.func, ast.Name) and x.func.id == 'len' and x.args and isinstance(x.args[0], ast.Name) and x.args[0].id == 'raw':
+                n += 1
+                tests = []
+                cur = x
+                while id(cur) in par:
+                    pp = par[id(cur)]
+                    if isinstance(pp, ast.If):
+                        tests.append(canon(pp.test))
+                    cur = pp
+                st = '%s: %s' % (fi.qual, stmt_text(par.get(id(x), x))[:120])
+                if any("b'$'" in t and 'pattern' in t for t in tests):
+                    ctx.holds(rule, fi, st, 'len(raw) only under the end-of-string marker (read-to-end field)', x.lineno, clause='iv')
+                else:
+                    ctx.violation(rule, fi, st, 'the length of the input steers parsing: an input cut inside this field parses to a shortened / absent value instead of failing', x.lineno, clause='iv')
+    ctx.unit('len_raw_sites', n)
 
 
 def template_binds_struct_unpack(repo):
